@@ -13,9 +13,11 @@ structure RxView where
   rxLog : List (Nat × Bytes)
   rxTmp : Option (Nat × Bytes)
   inSess : Bool
+  rx : Rx
+  rxBytes : Bytes
   deriving DecidableEq
 
-def Ep.rxView (e : Ep) : RxView := ⟨e.processed, e.rxLog, e.rxTmp, e.inSess⟩
+def Ep.rxView (e : Ep) : RxView := ⟨e.processed, e.rxLog, e.rxTmp, e.inSess, e.rx, e.rxBytes⟩
 
 def RxInv (e : Ep) : Prop :=
   e.rxLog = (rxSpec e.processed).done ∧ e.rxTmp = (rxSpec e.processed).cur
@@ -23,7 +25,7 @@ def RxInv (e : Ep) : Prop :=
 
 theorem rxInv_of_view {e e' : Ep} (h : e'.rxView = e.rxView) (hi : RxInv e) : RxInv e' := by
   simp only [Ep.rxView, RxView.mk.injEq] at h
-  obtain ⟨h1, h2, h3, h4⟩ := h
+  obtain ⟨h1, h2, h3, h4, _, _⟩ := h
   unfold RxInv at *
   rw [h1, h2, h3, h4]; exact hi
 
@@ -164,7 +166,7 @@ theorem rxInv_onSessInit (e0 : Ep) (ka sm xm : Nat) (node ext : Bytes) (hi : RxI
   unfold onSessInit
   simp only []
   have hv : ∀ e1 : Ep, (setState (mergeSession { e1 with peerInit := some ⟨ka, sm, xm, node⟩, inSess := true }
-      ⟨ka, sm, xm, node⟩) "established").1.rxView = ⟨e1.processed, e1.rxLog, e1.rxTmp, true⟩ := by
+      ⟨ka, sm, xm, node⟩) "established").1.rxView = ⟨e1.processed, e1.rxLog, e1.rxTmp, true, e1.rx, e1.rxBytes⟩ := by
     intro e1; rw [view_setState, view_mergeSession]; rfl
   have key : ∀ e1 : Ep, e1.processed = e0.processed ++ [.sessInit ka sm xm node ext] → e1.rxLog = e0.rxLog →
       e1.rxTmp = e0.rxTmp →
@@ -173,7 +175,7 @@ theorem rxInv_onSessInit (e0 : Ep) (ka sm xm : Nat) (node ext : Bytes) (hi : RxI
     intro e1 hp hl ht
     have := hv e1
     simp only [Ep.rxView, RxView.mk.injEq] at this
-    obtain ⟨a1, a2, a3, a4⟩ := this
+    obtain ⟨a1, a2, a3, a4, _, _⟩ := this
     unfold RxInv
     rw [a1, a2, a3, a4, hp, hl, ht]
     simp only [rxSpec, List.foldl_append, List.foldl_cons, List.foldl_nil, rxSpecStep]
@@ -185,8 +187,8 @@ theorem rxInv_onSessInit (e0 : Ep) (ka sm xm : Nat) (node ext : Bytes) (hi : RxI
 /-- what `segAccept` does to the receive projection -/
 theorem view_segAccept (e : Ep) (flags tid : Nat) (cur data : Bytes) (o1 : List Out) :
     (segAccept e flags tid cur data o1).1.rxView =
-      if hasEnd flags then ⟨e.processed, e.rxLog ++ [(tid, cur ++ data)], none, e.inSess⟩
-      else ⟨e.processed, e.rxLog, some (tid, cur ++ data), e.inSess⟩ := by
+      if hasEnd flags then ⟨e.processed, e.rxLog ++ [(tid, cur ++ data)], none, e.inSess, e.rx, e.rxBytes⟩
+      else ⟨e.processed, e.rxLog, some (tid, cur ++ data), e.inSess, e.rx, e.rxBytes⟩ := by
   unfold segAccept
   simp only []
   split
@@ -290,7 +292,7 @@ theorem rxInv_onSegment (e0 : Ep) (flags tid : Nat) (ext data : Bytes) (hi : RxI
     simp only []
     repeat' split
     all_goals rfl
-  have hspec := viewSeg_spec ⟨e0.processed ++ [.xferSegment flags tid ext data], e0.rxLog, e0.rxTmp, e0.inSess⟩
+  have hspec := viewSeg_spec ⟨e0.processed ++ [.xferSegment flags tid ext data], e0.rxLog, e0.rxTmp, e0.inSess, e0.rx, e0.rxBytes⟩
     (rxSpec e0.processed) flags tid ext data h1 h2 h3
   unfold RxInv
   rw [hp]
@@ -329,8 +331,9 @@ theorem rxInv_handleMsgs (ms : List Msg) (e : Ep) (hi : RxInv e) : RxInv (handle
 theorem rxInv_recvRaw (e : Ep) (c : Bytes) (hi : RxInv e) : RxInv (recvRaw e c).1 := by
   unfold recvRaw
   simp only []
-  have h0 : RxInv (rxEntry e c) :=
-    rxInv_of_view (by rfl) hi
+  have h0 : RxInv (rxEntry e c) := by
+    obtain ⟨a, b, c'⟩ := hi
+    exact ⟨a, b, c'⟩
   have h1 := rxInv_handleMsgs (feed e.rx c).2 _ h0
   split
   · exact rxInv_of_view (view_doClose _) h1
@@ -421,14 +424,28 @@ theorem viewSeg_processed (v : RxView) (flags tid : Nat) (data : Bytes) :
   repeat' split
   all_goals rfl
 
-theorem processed_handleMsg (e : Ep) (m : Msg) : (handleMsg e m).1.processed = e.processed ++ [m] := by
+theorem viewSeg_rx (v : RxView) (flags tid : Nat) (data : Bytes) :
+    (viewSeg v flags tid data).rx = v.rx := by
+  unfold viewSeg
+  repeat' split
+  all_goals rfl
+
+theorem viewSeg_rxBytes (v : RxView) (flags tid : Nat) (data : Bytes) :
+    (viewSeg v flags tid data).rxBytes = v.rxBytes := by
+  unfold viewSeg
+  repeat' split
+  all_goals rfl
+
+theorem frame_handleMsg (e : Ep) (m : Msg) :
+    (handleMsg e m).1.processed = e.processed ++ [m] ∧ (handleMsg e m).1.rx = e.rx
+      ∧ (handleMsg e m).1.rxBytes = e.rxBytes := by
   unfold handleMsg
   cases m with
   | contact f =>
     have : (onContact { e with processed := e.processed ++ [.contact f] }).1.rxView
         = ({ e with processed := e.processed ++ [.contact f] } : Ep).rxView := by
       unfold onContact; simp only []; cases e.cfg.passive <;> simp
-    exact congrArg RxView.processed this
+    exact ⟨congrArg RxView.processed this, congrArg RxView.rx this, congrArg RxView.rxBytes this⟩
   | sessInit ka sm xm node ext =>
     unfold onSessInit
     simp only []
@@ -436,9 +453,17 @@ theorem processed_handleMsg (e : Ep) (m : Msg) : (handleMsg e m).1.processed = e
       { (if e.cfg.passive then sendInit { e with processed := e.processed ++ [.sessInit ka sm xm node ext] }
          else { e with processed := e.processed ++ [.sessInit ka sm xm node ext] }) with
         peerInit := some ⟨ka, sm, xm, node⟩, inSess := true } ⟨ka, sm, xm, node⟩) "established")
-    simp only [Ep.rxView] at this
-    rw [this]
-    split <;> rfl
+    have h2 := congrArg RxView.rx (view_setState (mergeSession
+      { (if e.cfg.passive then sendInit { e with processed := e.processed ++ [.sessInit ka sm xm node ext] }
+         else { e with processed := e.processed ++ [.sessInit ka sm xm node ext] }) with
+        peerInit := some ⟨ka, sm, xm, node⟩, inSess := true } ⟨ka, sm, xm, node⟩) "established")
+    have h3 := congrArg RxView.rxBytes (view_setState (mergeSession
+      { (if e.cfg.passive then sendInit { e with processed := e.processed ++ [.sessInit ka sm xm node ext] }
+         else { e with processed := e.processed ++ [.sessInit ka sm xm node ext] }) with
+        peerInit := some ⟨ka, sm, xm, node⟩, inSess := true } ⟨ka, sm, xm, node⟩) "established")
+    simp only [Ep.rxView] at this h2 h3
+    rw [this, h2, h3]
+    split <;> exact ⟨rfl, rfl, rfl⟩
   | sessTerm f r =>
     have : (onSessTerm { e with processed := e.processed ++ [.sessTerm f r] } (.sessTerm f r) r).1.rxView
         = ({ e with processed := e.processed ++ [.sessTerm f r] } : Ep).rxView := by
@@ -451,14 +476,20 @@ theorem processed_handleMsg (e : Ep) (m : Msg) : (handleMsg e m).1.processed = e
           simp only [Ep.rxView] at this ⊢
           exact this
         · rfl
-    exact congrArg RxView.processed this
-  | keepalive => rfl
-  | msgReject a b => rfl
+    exact ⟨congrArg RxView.processed this, congrArg RxView.rx this, congrArg RxView.rxBytes this⟩
+  | keepalive => exact ⟨rfl, rfl, rfl⟩
+  | msgReject a b => exact ⟨rfl, rfl, rfl⟩
   | xferSegment flags tid ext data =>
     have := congrArg RxView.processed (view_onSegment { e with processed := e.processed ++ [.xferSegment flags tid ext data] }
       (.xferSegment flags tid ext data) flags tid data)
+    have h2 := congrArg RxView.rx (view_onSegment { e with processed := e.processed ++ [.xferSegment flags tid ext data] }
+      (.xferSegment flags tid ext data) flags tid data)
+    have h3 := congrArg RxView.rxBytes (view_onSegment { e with processed := e.processed ++ [.xferSegment flags tid ext data] }
+      (.xferSegment flags tid ext data) flags tid data)
     rw [viewSeg_processed] at this
-    exact this
+    rw [viewSeg_rx] at h2
+    rw [viewSeg_rxBytes] at h3
+    exact ⟨this, h2, h3⟩
   | xferAck f t l =>
     have : (onAck { e with processed := e.processed ++ [.xferAck f t l] } (.xferAck f t l) f t l).1.rxView
         = ({ e with processed := e.processed ++ [.xferAck f t l] } : Ep).rxView := by
@@ -472,7 +503,7 @@ theorem processed_handleMsg (e : Ep) (m : Msg) : (handleMsg e m).1.processed = e
             · rfl
             · simp only [view_checkSessTerm]; rfl
           · rfl
-    exact congrArg RxView.processed this
+    exact ⟨congrArg RxView.processed this, congrArg RxView.rx this, congrArg RxView.rxBytes this⟩
   | xferRefuse r t =>
     have : (onRefuse { e with processed := e.processed ++ [.xferRefuse r t] } (.xferRefuse r t) r t).1.rxView
         = ({ e with processed := e.processed ++ [.xferRefuse r t] } : Ep).rxView := by
@@ -487,7 +518,10 @@ theorem processed_handleMsg (e : Ep) (m : Msg) : (handleMsg e m).1.processed = e
             · rw [view_pqTrigger]; rfl
             · rfl
           · rfl
-    exact congrArg RxView.processed this
+    exact ⟨congrArg RxView.processed this, congrArg RxView.rx this, congrArg RxView.rxBytes this⟩
+
+theorem processed_handleMsg (e : Ep) (m : Msg) : (handleMsg e m).1.processed = e.processed ++ [m] :=
+  (frame_handleMsg e m).1
 
 theorem processed_prefix_handleMsgs (ms : List Msg) (e : Ep) : e.processed <+: (handleMsgs e ms).1.processed := by
   induction ms generalizing e with
